@@ -1,0 +1,33 @@
+//go:build verif
+
+package mongo
+
+import (
+	"github.com/bmeg/grip/gdbi"
+	"github.com/bmeg/grip/gripql"
+	"go.mongodb.org/mongo-driver/bson"
+	"go.mongodb.org/mongo-driver/mongo"
+)
+
+// VerifConvertHasExpression exposes convertHasExpression (verification harness only):
+// the $match document the Mongo compiler emits for a has-expression.
+func VerifConvertHasExpression(stmt *gripql.HasExpression, not bool) bson.M {
+	return convertHasExpression(stmt, not)
+}
+
+// VerifPipelineStages returns the start collection and the aggregation stages of a
+// pipeline compiled by this package's Compiler (verification harness only). ok is
+// false when the pipeline was not produced by the Mongo compiler (for example when
+// it fell back to the core compiler) or holds no Mongo Processor.
+func VerifPipelineStages(p gdbi.Pipeline) (startCollection string, stages mongo.Pipeline, ok bool) {
+	pipe, isMongo := p.(*Pipeline)
+	if !isMongo || pipe == nil {
+		return "", nil, false
+	}
+	for _, pr := range pipe.procs {
+		if mp, isProc := pr.(*Processor); isProc {
+			return mp.startCollection, mp.query, true
+		}
+	}
+	return "", nil, false
+}
